@@ -290,6 +290,14 @@ func valJobConfigCase(c *PRNG, res *Result) {
 		}
 	}
 	rjc.Spec.Template.Spec = genJobTemplate(c, mostlyValid)
+	// template metadata, also with furiko's own reserved keys in it (pasted from a Job's YAML):
+	// JobConfig admission does not look at it, so the Job built from it must still be valid
+	if c.Chance(1, 3) {
+		rjc.Spec.Template.Labels = Pick(c, []map[string]string{{"team": "t"}, {"team": "t", jobconfig.LabelKeyJobConfigUID: "uid-of-another-jobconfig"}, {jobconfig.LabelKeyJobConfigUID: "stale"}})
+	}
+	if c.Chance(1, 3) {
+		rjc.Spec.Template.Annotations = Pick(c, []map[string]string{{"doc": "d"}, {"doc": "d", jobconfig.AnnotationKeyScheduleTime: "42"}})
+	}
 	js["jobconfig"], js["cron_config"] = rjc, cc
 
 	// admission: mutate, then validate (the webhooks' order)
